@@ -127,6 +127,14 @@ CLAIMS = {
         "rollbacks after fossil collections must still produce the reference digests.",
    note=TB + "that the runtime passes the index of the last committed event is checked on traces, not proved.",
    tech="Coq proof (log re-basing invariants) + differential correspondence + trace oracle (released entries below GVT) + rollback-after-fossil runs"),
+ "C15": dict(cat="proof", ref="DESIGN.md §5 C15",
+   text="Theorems (Properties_C15.v, axiom-free): heap_insert/heap_extract (list model of the heap.h macros) preserve the multiset of elements for any comparator, even one that changes "
+        "between calls; for every sequence of producer pushes, flag flips, extractions and peeks everything pushed = what is still queued + what was extracted (no loss, no duplication); "
+        "an extraction/peek empties the shared list into the heap first; for a strict weak order the heap loops keep the heap property and a minimal root. Tie: real msg_queue_insert/"
+        "extract/time_peek with 1..4 producer threads and a consumer under the cooperative scheduler (points before the head load, every CAS attempt, the exchange, and a sender's ANTI "
+        "flip); each schedule is replayed through the extracted model: every CAS outcome, extracted message and peeked time must agree (thousands of CAS retries and ties).",
+   note=TB + "SC atomics; hook-granularity atomicity; minimality under a comparator that changes while elements are queued is replayed, not proved.",
+   tech="Coq proof (multiset preservation for arbitrary comparators, queue accounting invariant, heap invariants) + exact schedule replay through the extracted model"),
 }
 
 PENDING_REASON = "check not built yet in this session (work in progress, see DESIGN.md §8 order of work); not claimed until its theorem and correspondence run"
